@@ -69,7 +69,7 @@ def gen_c01(tier, rng):
 
 
 VALUES = ["", "v", "a=b", "=", " ", "x y", "--x", "-", "-5", "x\ny", "a\rb", "\xff\x80", "z" * 200, "--", "42", "-17",
-          "2147483647", "-2147483648", "007", "no", "=="]
+          "2147483647", "-2147483648", "007", "010", "08", "-010", "0123", "00", "no", "=="]
 
 
 def spell_cases(tag, rng, n):
